@@ -1,6 +1,8 @@
 package main
 
 import (
+	"fmt"
+	"os"
 	"reflect"
 	"strings"
 	"sync"
@@ -72,8 +74,17 @@ func (f *fence) close() {
 // MinIdleConns in the background right after the first command), so that the connection on top
 // of the idle stack no longer changes.
 func settle(mr *miniredis.Miniredis, ping func() bool) {
+	// go-zero's client keeps 8 idle connections (redisclientmanager.go idleConns) and dials them in
+	// the background; the harness' admin connection is one more. On a stalled machine those dials
+	// can be hundreds of ms apart, so first wait (bounded) until they all arrived, then until the
+	// count has not moved for 200 ms.
+	const expected = 8 + 1
+	for i := 0; i < 600 && mr.TotalConnectionCount() < expected; i++ {
+		ping()
+		sleepMs(5)
+	}
 	stable, last := 0, -1
-	for i := 0; i < 400 && stable < 10; i++ {
+	for i := 0; i < 2000 && stable < 40; i++ {
 		ping()
 		n := mr.TotalConnectionCount()
 		if n == last {
@@ -82,5 +93,8 @@ func settle(mr *miniredis.Miniredis, ping func() bool) {
 			stable, last = 0, n
 		}
 		sleepMs(5)
+	}
+	if os.Getenv("C03_DEBUG_SETTLE") != "" {
+		fmt.Fprintf(os.Stderr, "settle: %d connections accepted\n", mr.TotalConnectionCount())
 	}
 }
